@@ -52,6 +52,12 @@ POINT = {"type": "Point", "coordinates": [24.94, 60.17]}
 POLYGON = {"type": "Polygon", "coordinates": [[[0, 0], [1.5, 0], [1, 1], [0, 0]], [[0.25, 0.25], [0.5, 0.25], [0.5, 0.5], [0.25, 0.25]]],
            "bbox": [0, 0, 1.5, 1], "crs": {"note": "a \"nested\" member", "list": [None, True, {"k": "é"}]}}
 GEOMS = [None, POINT, POLYGON]
+ALL_GEOMS = [
+    POINT, {"type": "MultiPoint", "coordinates": [[0, 0], [1, 1.5]]}, {"type": "LineString", "coordinates": [[0, 0], [1, 1]]},
+    {"type": "MultiLineString", "coordinates": [[[0, 0], [1, 1]], [[2, 2], [3, 3.5]]]}, POLYGON,
+    {"type": "MultiPolygon", "coordinates": [[[[0, 0], [1, 0], [1, 1], [0, 0]]]]},
+    {"type": "GeometryCollection", "geometries": [POINT, {"type": "LineString", "coordinates": [[0, 0], [1, 1]]}]}, None,
+]
 
 ABSENT = "<absent>"
 
@@ -131,6 +137,8 @@ def base_collections(tier):
         [F({"r": None}, POINT), F({"r": None}, POLYGON)],
         [F({"p": 0, "q": "b\"\\é"}, POLYGON), F({"p": 7, "q": ""}, POLYGON)],
         [F({"f": 1.5}, POINT), F({}, None), F({"q": "a", "f": None}, POLYGON)],
+        # one feature of every geometry type of RFC 7946 (the library hands geometries on unchanged, whatever their type)
+        [F({"p": i}, g) for i, g in enumerate(ALL_GEOMS)],
         [F({"p": 0, "q": "a", "r": True, "f": 1.5}, POINT), F({"p": 7, "q": "a", "r": False, "f": -2.0}, POINT), F({"p": 0, "q": "a", "r": True, "f": 1.5}, None)],
     ]
     if tier == "thorough":
